@@ -27,6 +27,7 @@ RULES = {
     "R-C18-b": "pair-format validity = ~(mask at which the sentinel is written), for every array-cube-only statistic",
     "R-C18-c": "invalid rows are NaN-seeded in the constructor (validity = fact AND weight validity); ignore_missing selects valid rows / uses the NaN-aware routine",
     "R-C18-d": "each statistic delegates to the documented NumPy routine with the documented arguments",
+    "R-C18-f": "several fact columns: a per-column statistic (quantile, standard deviation) is never withheld from - or blanked in - one column because of another column's rows: no store into the result is guarded by an any-missing / all-valid test reduced over all columns of the cell at once",
     "R-C18-e": "weighted quantile under propagation: the result depends on every row of the segment through a whole-array NaN test / NaN-propagating reduction, not only through the few elements it selects",
 }
 
@@ -200,6 +201,98 @@ def rule_e(prog, rep):
                   witness={"inputs": "quantile([1, 2, nan], 0.1, weights=[1, 1, 1]) -> 1.0; the unweighted call returns nan"})
 
 
+REDUCERS = {"numpy.any": "any", ".any": "any", "numpy.all": "all", ".all": "all", "numpy.sum": "sum", ".sum": "sum", "numpy.count_nonzero": "sum",
+            "numpy.max": "ext", ".max": "ext", "numpy.min": "ext", ".min": "ext", "numpy.mean": "sum", ".mean": "sum", "numpy.nansum": "sum"}
+
+
+def _fact_leaf(x):
+    """values / validity of the fact argument"""
+    if x.op == "unpack" and x.args[0].op == "call" and (tm.callee_name(x.args[0]) or "").endswith("as_separate_validity"):
+        src = x.args[0].args[1][0]
+        return src.op == "param" and src.args[0] not in ("weights",)
+    return False
+
+
+def _multi_column(t):
+    """Does t denote an array that keeps all fact columns of the cell (not one column, not a 1-D slice)?"""
+    if not tm.contains(t, _fact_leaf):
+        return False
+    if tm.contains(t, lambda x: x.op == "slice1d"):
+        return False
+    # X[:, j] selects one column
+    if tm.contains(t, lambda x: x.op == "sub" and x.args[1].op == "tuple" and len(x.args[1].args) == 2 and x.args[1].args[0].op == "slice" and x.args[1].args[1].op != "slice"):
+        return False
+    return True
+
+
+def _pred_kind(p):
+    """'missing' / 'valid' / None for the operand of an any()/all()"""
+    neg = False
+    while p.op == "unop" and p.args[0] in ("~", "not"):
+        neg = not neg
+        p = p.args[1]
+    kind = None
+    if p.op == "call" and tm.callee_name(p) == "numpy.isnan":
+        kind = "missing"
+    elif tm.contains(p, lambda x: x.op == "unpack" and x.args[1] == 1 and x.args[0].op == "call" and (tm.callee_name(x.args[0]) or "").endswith("as_separate_validity")) \
+            and not tm.contains(p, lambda x: x.op == "call" and tm.callee_name(x) == "numpy.isnan"):
+        kind = "valid"
+    if kind is None:
+        return None
+    if neg:
+        kind = "valid" if kind == "missing" else "missing"
+    return kind
+
+
+def rule_f(prog, rep):
+    from sa.symex import flat_guards
+    n = 0
+    for cls, label in (("xfunc_quantile", "quantile"), ("xfunc_stddev", "standard deviation")):
+        for w in ("none", "array"):
+            for ign in (False, True):
+                for co in (True, False):
+                    cfg = aggr.Config(weights=w, ignore=ign, rma="nan", ndim=2, coords=co, N=not co)
+                    m = AT.model(prog, "xfuncs", cls, cfg)
+                    fi, I, fr = m.fill
+                    seen = set()
+                    stores = [e for e in I.events if e.kind == "store_sub"]
+                    for e in stores:
+                        for c, pol in flat_guards(e.guards):
+                            for x in tm.walk(c):
+                                if x.op != "call" or (tm.callee_name(x) or "") not in REDUCERS:
+                                    continue
+                                nm = tm.callee_name(x)
+                                operand = x.args[0].args[0] if nm.startswith(".") else (x.args[1][0] if x.args[1] else None)
+                                rest = x.args[1] if nm.startswith(".") else x.args[1][1:]
+                                if operand is None or tm.kwarg(x, "axis") is not None or rest:
+                                    continue  # reduced per column (axis given)
+                                if not _multi_column(operand):
+                                    continue
+                                key = (tm.show(x)[:200], pol, e.line)
+                                if key in seen:
+                                    continue
+                                seen.add(key)
+                                n += 1
+                                red = REDUCERS[nm]
+                                pk = _pred_kind(operand)
+                                # polarity of the reduction inside the atom: `not R(...)` flips
+                                neg = c.op == "unop" and c.args[0] == "not" and c.args[1] == x
+                                direct = c == x or neg
+                                eff = (pol != neg) if direct else None
+                                where = "xfuncs:%s.fill@%d" % (cls, e.line)
+                                cons = "%s, weights %s, %s, %s: store guarded by %s(%s) over all columns" % (label, w, "ignore" if ign else "propagate", "by coordinates" if co else "no coordinates", red, pk or "?")
+                                harmless = (red == "all" and pk == "missing") or (red == "any" and pk == "valid")
+                                cross = direct and ((red == "any" and pk == "missing" and eff is False) or (red == "all" and pk == "valid" and eff is True))
+                                if harmless:
+                                    rep.proved("R-C18-f", where, cons, "an all-missing test: every column of the cell is missing when it skips")
+                                elif cross:
+                                    rep.violated("R-C18-f", where, cons, "the store happens only when NO row of ANY column is missing: one column's missing value blanks the statistic of every other column of the cell",
+                                                 witness={"inputs": "two fact columns, a cell whose rows are [[1, nan], [2, 5], [3, 6]]: column 0 has no missing value but its %s comes back missing" % label})
+                                else:
+                                    rep.undecided("R-C18-f", where, cons, "a whole-cell reduction over several columns guards a per-column store; its meaning is not recognised")
+    rep.floor("R-C18-f", 4, n)
+
+
 def main(tier):
     rep = core.Report("C18", level="other", rules=RULES, tier=tier,
                       declined="per-cell numerical equality with the textbook statistic (floating-point values)")
@@ -210,6 +303,7 @@ def main(tier):
     rule_c(prog, rep)
     rule_d(prog, rep)
     rule_e(prog, rep)
+    rule_f(prog, rep)
     return rep.finish()
 
 
